@@ -190,14 +190,14 @@ theorem spec_bounds {D : Dataset} : ∀ (P : Alg), P.inFragment = true → (∀ 
       · simp only [Alg.must, List.mem_filter, List.contains_eq_mem, decide_eq_true_eq] at hv; exact hv.2
       · simp only [Alg.may, List.mem_append]; exact Or.inr (this.2 v hv)
   | .filter e p vars noIso, hf, hws, g, μ, h => by
-    simp only [Alg.inFragment, Bool.and_eq_true] at hf
+    simp only [Alg.inFragment] at hf
     simp only [Spec.eval, List.mem_filter] at h
-    exact spec_bounds p hf.2 (fun v hv => hws v (by simp [Alg.allVars, hv])) g μ h.1
+    exact spec_bounds p hf (fun v hv => hws v (by simp [Alg.allVars, hv])) g μ h.1
   | .extend p w e vars, hf, hws, g, μ, h => by
-    simp only [Alg.inFragment, Bool.and_eq_true] at hf
+    simp only [Alg.inFragment] at hf
     simp only [Spec.eval, List.mem_map] at h
     obtain ⟨μ', h', he⟩ := h
-    have ih := spec_bounds p hf.2 (fun v hv => hws v (by simp [Alg.allVars, hv])) g μ' h'
+    have ih := spec_bounds p hf (fun v hv => hws v (by simp [Alg.allVars, hv])) g μ' h'
     have hle : μ'.le μ ∧ ∀ v, (μ.get v).isSome = true → v = w ∨ (μ'.get v).isSome = true := by
       cases hw : μ'.get w with
       | some _ => simp only [hw] at he; subst he; exact ⟨Row.le_refl _, fun v hv => Or.inr hv⟩
@@ -237,10 +237,10 @@ theorem spec_bounds {D : Dataset} : ∀ (P : Alg), P.inFragment = true → (∀ 
       obtain ⟨μ1, h1, μ2, h2, he⟩ := hj
       split at he
       · cases he
-        have := (spec_bounds a hf.1.2 hwsa g μ1 h1).merge (spec_bounds b hf.2 hwsb g μ2 h2)
+        have := (spec_bounds a hf.1 hwsa g μ1 h1).merge (spec_bounds b hf.2 hwsb g μ2 h2)
         exact ⟨fun v hv => this.1 v (List.mem_append.mpr (Or.inl hv)), this.2⟩
       · cases he
-    · have := spec_bounds a hf.1.2 hwsa g μ ha
+    · have := spec_bounds a hf.1 hwsa g μ ha
       exact ⟨this.1, fun v hv => List.mem_append.mpr (Or.inl (this.2 v hv))⟩
   | .minus a b _, hf, hws, g, μ, h => by
     simp only [Alg.inFragment, Bool.and_eq_true] at hf
